@@ -328,6 +328,321 @@ fn corrupt(t: &mut Taken, rng: &mut Rng) -> bool {
     }
 }
 
+
+// ---------------------------------------------------------------------------------------------
+// blob columns: take_blobs / take_blobs_by_indices vs the bytes that were written
+// ---------------------------------------------------------------------------------------------
+
+/// pure oracle: files returned (size reported, bytes read) vs what was written for the requested
+/// rows, in order. A NULL blob may be absent from the result or come back as a zero-length file
+/// (both behaviours exist: blob.rs filters NULL descriptions, but NULL blobs are stored with a
+/// non-NULL description of size 0); everything else must match exactly.
+pub fn blob_oracle(api: &str, expected: &[Option<Vec<u8>>], got: &[(u64, Vec<u8>)]) -> Option<Finding> {
+    fn align(e: &[Option<Vec<u8>>], g: &[(u64, Vec<u8>)]) -> bool {
+        match e.first() {
+            None => g.is_empty(),
+            Some(Some(b)) => {
+                !g.is_empty() && g[0].0 as usize == b.len() && &g[0].1 == b && align(&e[1..], &g[1..])
+            }
+            Some(None) => {
+                align(&e[1..], g) || (!g.is_empty() && g[0].0 == 0 && g[0].1.is_empty() && align(&e[1..], &g[1..]))
+            }
+        }
+    }
+    if align(expected, got) {
+        return None;
+    }
+    let non_null = expected.iter().flatten().count();
+    let sig = if got.len() < non_null || got.len() > expected.len() {
+        format!("{api}-wrong-blob-count")
+    } else {
+        format!("{api}-wrong-blob-bytes")
+    };
+    Some(Finding::new(
+        sig,
+        format!(
+            "{api}: {} rows requested ({} non-NULL blobs), {} BlobFiles returned that do not match what was written",
+            expected.len(),
+            non_null,
+            got.len()
+        ),
+        json!({"expected_sizes": expected.iter().map(|b| b.as_ref().map(|x| x.len())).collect::<Vec<_>>(),
+               "returned_sizes": got.iter().map(|g| g.0).collect::<Vec<_>>()}),
+    ))
+}
+
+async fn blob_case(cx: &Ctx<'_>, seed: u64, idx: u64, rng: &mut Rng) {
+    use arrow_array::{Int64Array, LargeBinaryArray, RecordBatchIterator};
+    use arrow_schema::{DataType, Field, Schema};
+    use lance::dataset::WriteMode;
+    use vmon::store::World;
+    use vmon::table::Actor;
+    let world = World::memory();
+    let actor = Actor::new(world.new_actor(0));
+    let uri = format!("memory://c15b-{seed}-{idx}");
+    let stable = rng.bool();
+    let version = *rng.pick(&[
+        lance_encoding::version::LanceFileVersion::V2_0,
+        lance_encoding::version::LanceFileVersion::V2_1,
+    ]);
+    let schema = Arc::new(Schema::new(vec![
+        Field::new("id", DataType::Int64, false),
+        Field::new("b", DataType::LargeBinary, true).with_metadata(
+            [("lance-encoding:blob".to_string(), "true".to_string())].into_iter().collect(),
+        ),
+        Field::new("v", DataType::Int64, false),
+    ]));
+    let mut model: BTreeMap<i64, Option<Vec<u8>>> = BTreeMap::new();
+    let mut next_id = (idx as i64 % 4000 + 1) << 40;
+    let mut log: Vec<String> = vec![];
+    let mut gen = |rng: &mut Rng, n: usize, model: &mut BTreeMap<i64, Option<Vec<u8>>>| {
+        let ids: Vec<i64> = (0..n as i64).map(|i| next_id + i).collect();
+        next_id += n as i64;
+        let blobs: Vec<Option<Vec<u8>>> = (0..n)
+            .map(|_| {
+                let len = match rng.below(8) {
+                    0 => return None,
+                    1 => 0,
+                    2 | 3 => rng.urange(1, 16),
+                    4 | 5 => rng.urange(100, 600),
+                    _ => rng.urange(1000, 5000),
+                };
+                Some(rng.bytes(len))
+            })
+            .collect();
+        for (i, b) in ids.iter().zip(&blobs) {
+            model.insert(*i, b.clone());
+        }
+        arrow_array::RecordBatch::try_new(
+            schema.clone(),
+            vec![
+                Arc::new(Int64Array::from(ids.clone())),
+                Arc::new(LargeBinaryArray::from_iter(blobs.iter().map(|b| b.as_deref()))),
+                Arc::new(Int64Array::from(ids)),
+            ],
+        )
+        .unwrap()
+    };
+    let n0 = rng.urange(6, 30);
+    let b0 = gen(rng, n0, &mut model);
+    let mut params = actor.write_params(WriteMode::Create);
+    params.max_rows_per_file = *rng.pick(&[3usize, 5, 8, 1000]);
+    params.enable_stable_row_ids = stable;
+    params.data_storage_version = Some(version);
+    let reader = RecordBatchIterator::new(vec![Ok(b0)], schema.clone());
+    let mut ds = match guard(Dataset::write(reader, uri.as_str(), Some(params))).await {
+        Ok(d) => d,
+        Err(e) => {
+            cx.report.rejected();
+            cx.diag.add(&format!("blob-create:{}", e.key()), 1);
+            return;
+        }
+    };
+    log.push(format!("create {n0} rows with blob column, stable={stable}, {version:?}"));
+    for _ in 0..rng.urange(1, 4) {
+        match rng.below(3) {
+            0 => {
+                let n = rng.urange(1, 8);
+                let b = gen(rng, n, &mut model);
+                let mut p = actor.write_params(WriteMode::Append);
+                p.max_rows_per_file = *rng.pick(&[2usize, 4, 1000]);
+                let reader = RecordBatchIterator::new(vec![Ok(b)], schema.clone());
+                let mut d = ds.clone();
+                match guard(async {
+                    d.append(reader, Some(p)).await?;
+                    Ok(d)
+                })
+                .await
+                {
+                    Ok(d) => {
+                        ds = d;
+                        log.push(format!("append {n}"));
+                    }
+                    Err(e) => {
+                        // the ids were put into the model by gen(): take them out again
+                        let keep: Vec<i64> = model.keys().rev().take(n).copied().collect();
+                        for k in keep {
+                            model.remove(&k);
+                        }
+                        cx.diag.add(&format!("blob-append:{}", e.key()), 1);
+                    }
+                }
+            }
+            1 => {
+                let m = rng.range(2, 5);
+                let r = rng.range(0, m - 1);
+                let mut d = ds.clone();
+                let sql = format!("id % {m} = {r}");
+                if let Ok(d) = guard(async {
+                    d.delete(&sql).await?;
+                    Ok(d)
+                })
+                .await
+                {
+                    ds = d;
+                    model.retain(|id, _| id % m != r);
+                    log.push(format!("delete where {sql}"));
+                }
+            }
+            _ => {
+                let mut d = ds.clone();
+                let opts = lance::dataset::optimize::CompactionOptions {
+                    target_rows_per_fragment: *rng.pick(&[4usize, 16, 1 << 20]),
+                    materialize_deletions_threshold: 0.0,
+                    ..Default::default()
+                };
+                match guard(async {
+                    lance::dataset::optimize::compact_files(&mut d, opts, None).await?;
+                    Ok(d)
+                })
+                .await
+                {
+                    Ok(d) => {
+                        ds = d;
+                        log.push("compact_files".into());
+                    }
+                    Err(e) => cx.diag.add(&format!("blob-compact:{}", e.key()), 1),
+                }
+            }
+        }
+    }
+    // reference: ordered scan of id with row id / address
+    let keys = guard(async {
+        let mut s = ds.scan();
+        s.project(&["id"])?;
+        s.with_row_id().with_row_address().scan_in_order(true);
+        let bs: Vec<RecordBatch> = s.try_into_stream().await?.try_collect().await?;
+        let mut v = vec![];
+        for b in &bs {
+            for i in 0..b.num_rows() {
+                let g = |n: &str| cell_at(b.column_by_name(n).unwrap().as_ref(), i);
+                v.push((g("id").as_i64().unwrap_or(-1), g(ROWID), g(ROWADDR)));
+            }
+        }
+        Ok(v)
+    })
+    .await;
+    let Ok(keys) = keys else {
+        cx.diag.add("blob-reference-scan-failed", 1);
+        return;
+    };
+    let ids_scanned: BTreeSet<i64> = keys.iter().map(|k| k.0).collect();
+    if ids_scanned != model.keys().copied().collect::<BTreeSet<_>>() {
+        cx.report.violation(
+            "blob-table-rows-differ-from-model",
+            "the table with a blob column does not hold the rows that were written / not deleted",
+            json!({"seed": seed, "case": idx, "history": log}),
+        );
+        return;
+    }
+    if keys.is_empty() {
+        return;
+    }
+    let ds = Arc::new(ds);
+    for round in 0..3 {
+        let by_index = round % 2 == 1;
+        let n = keys.len();
+        let m = rng.urange(1, n.min(12));
+        let mut pos: Vec<usize> = (0..m).map(|_| rng.usize_below(n)).collect();
+        if rng.bool() {
+            pos.sort();
+            pos.dedup();
+        }
+        let expected: Vec<Option<Vec<u8>>> = pos.iter().map(|p| model[&keys[*p].0].clone()).collect();
+        let req: Vec<u64> = pos
+            .iter()
+            .map(|p| {
+                if by_index {
+                    *p as u64
+                } else {
+                    match &keys[*p].1 {
+                        Cell::Int(x) => *x as u64,
+                        _ => 0,
+                    }
+                }
+            })
+            .collect();
+        let api = if by_index { "take_blobs_by_indices" } else { "take_blobs" };
+        let ds2 = ds.clone();
+        let req2 = req.clone();
+        let res = guard(async move {
+            let files = if by_index {
+                ds2.take_blobs_by_indices(&req2, "b").await?
+            } else {
+                ds2.take_blobs(&req2, "b").await?
+            };
+            let mut out: Vec<(u64, Result<Vec<u8>, String>)> = vec![];
+            for f in files {
+                match f.read().await {
+                    Ok(bytes) => out.push((f.size(), Ok(bytes.to_vec()))),
+                    Err(e) => out.push((f.size(), Err(e.to_string()))),
+                }
+            }
+            Ok(out)
+        })
+        .await;
+        // a BlobFile that cannot be read
+        let res = match res {
+            Ok(v) => {
+                if let Some((size, Err(e))) = v.iter().find(|x| x.1.is_err()) {
+                    let sig = if *size == 0 {
+                        "empty-blob-cannot-be-read".to_string()
+                    } else {
+                        format!("{api}-blob-read-fails")
+                    };
+                    let new = cx.report.violation(
+                        &sig,
+                        &format!("BlobFile::read fails for a blob of size {size} returned by {api}"),
+                        json!({"seed": seed, "case": idx, "keys": req, "error": e.chars().take(300).collect::<String>(),
+                               "history": log, "stable_row_ids": stable}),
+                    );
+                    if new || v.iter().any(|x| x.1.is_err() && x.0 != 0) {
+                        return;
+                    }
+                    // known class (zero-length read): go on with the other files
+                }
+                Ok(v.into_iter().map(|(s, b)| (s, b.unwrap_or_default())).collect::<Vec<_>>())
+            }
+            Err(e) => Err(e),
+        };
+        match res {
+            Err(e) => {
+                let sig = if by_index && stable {
+                    // same root cause: addresses looked up as row ids -> nothing resolves -> the
+                    // empty result lacks the address column blob.rs indexes into
+                    "take_blobs_by_indices-loses-blobs:stable-row-ids".to_string()
+                } else {
+                    format!("{api}-fails-on-live-keys[{}]", crate::c11::err_site(&e.msg()))
+                };
+                cx.report.violation(
+                    &sig,
+                    &format!("{api} fails on keys the scan reported"),
+                    json!({"seed": seed, "case": idx, "keys": req, "error": e.brief(), "history": log, "stable_row_ids": stable}),
+                );
+                return;
+            }
+            Ok(got) => {
+                cx.report.count("blobs_compared", got.len() as u64);
+                cx.apis.add(api, 1);
+                if let Some(f) = blob_oracle(api, &expected, &got) {
+                    let sig = if by_index && stable {
+                        // take_blobs_by_indices hands row *addresses* to a lookup by row *id*
+                        "take_blobs_by_indices-loses-blobs:stable-row-ids".to_string()
+                    } else {
+                        f.sig.clone()
+                    };
+                    cx.report.violation(
+                        &sig,
+                        &f.what,
+                        json!({"seed": seed, "case": idx, "keys": req, "detail": f.detail, "history": log, "stable_row_ids": stable}),
+                    );
+                    return;
+                }
+            }
+        }
+    }
+}
+
 async fn run_case(cx: &Ctx<'_>, seed: u64, idx: u64, thorough: bool, selftest: bool) -> (u64, u64) {
     let mut rng = Rng::for_case(seed, idx);
     let cfg = HistCfg::random(&mut rng, None);
@@ -593,6 +908,9 @@ async fn run_case(cx: &Ctx<'_>, seed: u64, idx: u64, thorough: bool, selftest: b
             }
         }
     }
+    if rng.chance(1, 3) {
+        blob_case(cx, seed, idx, &mut rng).await;
+    }
     cx.report.count("keys_compared", keys_checked);
     cx.report.count("lists_with_unresolvable_keys", hostile_lists);
     cx.report.count("rows_in_reference_scans", n as u64);
@@ -656,7 +974,23 @@ pub fn run(args: &Args) -> i32 {
         });
     }
     if selftest {
-        let g = st.lock().unwrap();
+        let mut g = st.lock().unwrap();
+        // blob oracle (pure): dropped file, flipped byte, wrong size
+        let exp = vec![Some(vec![1u8, 2, 3]), None, Some(vec![]), Some(vec![9u8; 10])];
+        let good: Vec<(u64, Vec<u8>)> = exp.iter().flatten().map(|b| (b.len() as u64, b.clone())).collect();
+        assert!(blob_oracle("take_blobs", &exp, &good).is_none());
+        let mut c1 = good.clone();
+        c1.pop();
+        let mut c2 = good.clone();
+        c2[0].1[1] ^= 1;
+        let mut c3 = good.clone();
+        c3[2].0 = 9;
+        for c in [c1, c2, c3] {
+            g.0 += 1;
+            if blob_oracle("take_blobs", &exp, &c).is_some() {
+                g.1 += 1;
+            }
+        }
         println!("SELFTEST C15 corruptions_applied={} detected={}", g.0, g.1);
         return if g.0 > 0 && g.0 == g.1 { 0 } else { 2 };
     }
